@@ -264,6 +264,7 @@ def corpus():
     out["manylines"] = manylines()
     out["big_bytes_tuple"] = big_bytes_tuple()
     out["long_jumps"] = long_jump_body()
+    out["extarg3"] = "#craft:extarg  (the reference interpreter replaces the body: see oracle_ext.compile_program)\nx = 0\n"
     return out
 
 
